@@ -282,7 +282,7 @@ pub struct Obs {
     pub how: String,
 }
 
-fn exec_op(op: &Op, pool: &BTreeMap<String, String>, doc: &HashMap<Cat, Vec<String>>) -> Vec<(String, String, Option<Vec<i32>>, String)> {
+fn exec_op(op: &Op, pool: &BTreeMap<String, String>, doc: &HashMap<Cat, Vec<String>>, fine: Option<&FineEnv>) -> Vec<(String, String, Option<Vec<i32>>, String)> {
     match op {
         Op::File { text, file_no, pat } => {
             let src = pool.get(text).cloned().unwrap_or_default();
@@ -323,7 +323,16 @@ fn exec_op(op: &Op, pool: &BTreeMap<String, String>, doc: &HashMap<Cat, Vec<Stri
                 None,
             );
             let mut maps = Maps::default();
-            let r = with_env(&env, || analyze_dir_cat(cat, "/d", &ps, &mut maps));
+            let r = match fine {
+                None => with_env(&env, || analyze_dir_cat(cat, "/d", &ps, &mut maps)),
+                Some(f) => {
+                    // the thread's installed Env is the fine-grained one; it serves this walk's files
+                    *f.inner.lock().unwrap() = Some(env.clone());
+                    let r = crate::simenv::guarded(|| analyze_dir_cat(cat, "/d", &ps, &mut maps));
+                    *f.inner.lock().unwrap() = None;
+                    r
+                }
+            };
             let how = format!(
                 "analyze_dir(/d = [{}], {} patterns of {})",
                 tree.iter().map(|(p, _)| p.as_str()).collect::<Vec<_>>().join(", "),
@@ -421,6 +430,14 @@ impl FineSched {
 struct FineEnv {
     sched: Arc<FineSched>,
     me: usize,
+    /// the simulated file system of the directory walk this thread is currently performing
+    inner: Mutex<Option<Arc<SimEnv>>>,
+}
+
+impl FineEnv {
+    fn fs(&self) -> Option<Arc<SimEnv>> {
+        self.inner.lock().unwrap().clone()
+    }
 }
 
 fn unsupported<T>() -> std::io::Result<T> {
@@ -428,38 +445,67 @@ fn unsupported<T>() -> std::io::Result<T> {
 }
 
 impl solstat::verif_shim::Env for FineEnv {
-    fn read_dir(&self, _: &std::path::Path) -> std::io::Result<Vec<std::path::PathBuf>> {
-        unsupported()
+    fn read_dir(&self, p: &std::path::Path) -> std::io::Result<Vec<std::path::PathBuf>> {
+        self.sched.yield_now(self.me);
+        match self.fs() {
+            Some(e) => e.read_dir(p),
+            None => unsupported(),
+        }
     }
-    fn is_dir(&self, _: &std::path::Path) -> bool {
-        false
+    fn is_dir(&self, p: &std::path::Path) -> bool {
+        self.fs().map_or(false, |e| e.is_dir(p))
     }
-    fn is_file(&self, _: &std::path::Path) -> bool {
-        false
+    fn is_file(&self, p: &std::path::Path) -> bool {
+        self.fs().map_or(false, |e| e.is_file(p))
     }
-    fn file_len(&self, _: &std::path::Path) -> std::io::Result<u64> {
-        unsupported()
+    fn file_len(&self, p: &std::path::Path) -> std::io::Result<u64> {
+        match self.fs() {
+            Some(e) => e.file_len(p),
+            None => unsupported(),
+        }
     }
-    fn read(&self, _: &std::path::Path) -> std::io::Result<Vec<u8>> {
-        unsupported()
+    fn read(&self, p: &std::path::Path) -> std::io::Result<Vec<u8>> {
+        self.sched.yield_now(self.me);
+        match self.fs() {
+            Some(e) => e.read(p),
+            None => unsupported(),
+        }
     }
-    fn write(&self, _: &std::path::Path, _: &[u8], _: solstat::verif_shim::WriteMode) -> std::io::Result<()> {
-        unsupported()
+    fn write(&self, p: &std::path::Path, d: &[u8], m: solstat::verif_shim::WriteMode) -> std::io::Result<()> {
+        match self.fs() {
+            Some(e) => e.write(p, d, m),
+            None => unsupported(),
+        }
     }
-    fn remove_file(&self, _: &std::path::Path) -> std::io::Result<()> {
-        unsupported()
+    fn remove_file(&self, p: &std::path::Path) -> std::io::Result<()> {
+        match self.fs() {
+            Some(e) => e.remove_file(p),
+            None => unsupported(),
+        }
     }
-    fn remove_dir_all(&self, _: &std::path::Path) -> std::io::Result<()> {
-        unsupported()
+    fn remove_dir_all(&self, p: &std::path::Path) -> std::io::Result<()> {
+        match self.fs() {
+            Some(e) => e.remove_dir_all(p),
+            None => unsupported(),
+        }
     }
-    fn rename(&self, _: &std::path::Path, _: &std::path::Path) -> std::io::Result<()> {
-        unsupported()
+    fn rename(&self, a: &std::path::Path, b: &std::path::Path) -> std::io::Result<()> {
+        match self.fs() {
+            Some(e) => e.rename(a, b),
+            None => unsupported(),
+        }
     }
-    fn create_dir_all(&self, _: &std::path::Path) -> std::io::Result<()> {
-        unsupported()
+    fn create_dir_all(&self, p: &std::path::Path) -> std::io::Result<()> {
+        match self.fs() {
+            Some(e) => e.create_dir_all(p),
+            None => unsupported(),
+        }
     }
     fn current_dir(&self) -> std::io::Result<std::path::PathBuf> {
-        unsupported()
+        match self.fs() {
+            Some(e) => e.current_dir(),
+            None => unsupported(),
+        }
     }
     fn iteration_order(&self, _: &'static str, keys: &[String]) -> Vec<usize> {
         (0..keys.len()).collect()
@@ -512,14 +558,16 @@ fn exec_fine(
                 .stack_size(64 << 20)
                 .spawn_scoped(s, move || {
                     sched.wait_turn(t);
-                    let env: Arc<dyn solstat::verif_shim::Env> = Arc::new(FineEnv {
+                    let fenv = Arc::new(FineEnv {
                         sched: sched.clone(),
                         me: t,
+                        inner: Mutex::new(None),
                     });
+                    let env: Arc<dyn solstat::verif_shim::Env> = fenv.clone();
                     solstat::verif_shim::install(env);
                     for (oi, op) in ops.iter().enumerate() {
-                        if let Op::File { .. } = op {
-                            let res = exec_op(op, pool, doc);
+                        {
+                            let res = exec_op(op, pool, doc, Some(&fenv));
                             let mut g = obs.lock().unwrap();
                             for (text, pat, lines, how) in res {
                                 g.push(Obs {
@@ -613,7 +661,7 @@ pub fn exec_scn(si: usize, scn: &Scn, pool: &BTreeMap<String, String>, doc: &Has
                         let oi = g.next_op[t];
                         g.next_op[t] += 1;
                         // perform the operation while holding the baton (nobody else runs)
-                        let res = exec_op(&ops[oi], pool, doc);
+                        let res = exec_op(&ops[oi], pool, doc, None);
                         for (text, pat, lines, how) in res {
                             g.obs.push(Obs {
                                 scn: si,
@@ -721,6 +769,25 @@ pub fn exec_chain(chain: &Chain, base: &Baseline, doc: &HashMap<Cat, Vec<String>
 pub const FILE_NOS: [usize; 8] = [0, 1, 2, 7, 255, 256, 65_536, 4_000_000_000];
 
 fn gen_op(rng: &mut Rng, names: &[String], focus: &[String]) -> Op {
+    if rng.chance(3, 5) {
+        let cat = *rng.pick(&CATS);
+        let d = defaults(cat);
+        let text = if !focus.is_empty() && rng.chance(2, 3) {
+            rng.pick(focus).clone()
+        } else {
+            rng.pick(names).clone()
+        };
+        Op::File {
+            text,
+            file_no: *rng.pick(&FILE_NOS),
+            pat: rng.pick(&d).label(),
+        }
+    } else {
+        gen_op_dir(rng, names, focus)
+    }
+}
+
+fn gen_op_dir(rng: &mut Rng, names: &[String], focus: &[String]) -> Op {
     let pick_name = |rng: &mut Rng| -> String {
         if !focus.is_empty() && rng.chance(2, 3) {
             rng.pick(focus).clone()
@@ -728,15 +795,7 @@ fn gen_op(rng: &mut Rng, names: &[String], focus: &[String]) -> Op {
             rng.pick(names).clone()
         }
     };
-    if rng.chance(3, 5) {
-        let cat = *rng.pick(&CATS);
-        let d = defaults(cat);
-        Op::File {
-            text: pick_name(rng),
-            file_no: *rng.pick(&FILE_NOS),
-            pat: rng.pick(&d).label(),
-        }
-    } else {
+    {
         let cat = *rng.pick(&CATS);
         let pats = gen::gen_pats(rng, cat);
         let n = rng.range(1, 5);
@@ -789,6 +848,11 @@ pub fn gen_scn(rng: &mut Rng, names: &[String]) -> Scn {
                 } else {
                     rng.pick(names).clone()
                 };
+                if rng.chance(1, 4) {
+                    // a directory walk interleaved with the other threads' work
+                    ops.push(gen_op_dir(rng, names, &focus));
+                    continue;
+                }
                 ops.push(Op::File {
                     text,
                     file_no: *rng.pick(&FILE_NOS),
